@@ -1,5 +1,6 @@
 import QipVerif.Lemmas.GridMerge
 import QipVerif.Lemmas.GridOde
+import QipVerif.Lemmas.GridCatchUp
 import QipVerif.Gen.FillCubic
 /-!
 # C14 — pulse evolution is the time-ordered propagator of the stated Hamiltonian
@@ -506,5 +507,155 @@ theorem variants_false : (∀ tol tl cs T, fillV false tol tl cs T = fill tol tl
   constructor
   · intro tol tl cs T; simp [fillV, normCoeff]
   · intro it rows n i; rfl
+
+/-! ## the advance step of `_fill_coeff` in both shapes (fixes/C14-7.patch)
+
+`Grid.fillW w` / `Grid.fillVW zl w` / `Grid.fullCoeffsVW zl w`: `w = false` is the loop as found (`if`: the running index
+moves at most one slot per merged point), `w = true` the repaired loop (`while`: it catches up over every slot that ends
+before `t + tol`).  The check reads `w` from the tree.  Every theorem above holds for both shapes under the same hypotheses:
+under `SepAll` the loop moves at most once per merged point, so the two shapes return the same list. -/
+
+/-- the variant `w = false` is the original function, for both paddings -/
+theorem variants_w_false :
+    (∀ zl tol tl cs T, fillVW zl false tol tl cs T = fillV zl tol tl cs T) ∧
+    (∀ zl tol chans, fullCoeffsVW zl false tol chans = fullCoeffsV zl tol chans) :=
+  ⟨fun _ _ _ _ _ => fillW_false _ _ _ _, fun _ _ _ => fullCoeffsW_false _ _⟩
+
+/-- **both shapes agree** on every channel of a processor within the hypotheses of the resampling theorems -/
+theorem fill_w_eq_fill (w : Bool) (tol : Rat) (grids : List (List Rat)) (T tl cs : List Rat) (htol : 0 ≤ tol)
+    (hgr : ∀ g ∈ grids, GoodGrid g) (hsep : SepAll tol grids) (hmem : tl ∈ grids)
+    (hT : fullTlist tol grids = some T)
+    (hlen : cs.length + 1 = tl.length ∨ cs.length = tl.length) :
+    fillW w tol tl cs T = fill tol tl cs T :=
+  fillW_eq_fill_grids w tol grids T tl cs htol hgr hsep hmem hT hlen
+
+example : fillW true (1/10) [0, 3/2, 2] [1/2, 1/4] [0, 1, 3/2, 2] = fill (1/10) [0, 3/2, 2] [1/2, 1/4] [0, 1, 3/2, 2] := by
+  decide +kernel
+
+/-- `fill_eq_code` for both shapes -/
+theorem fill_eq_code_w (w : Bool) (tol : Rat) (grids : List (List Rat)) (T tl cs : List Rat) (htol : 0 ≤ tol)
+    (hgr : ∀ g ∈ grids, GoodGrid g) (hsep : SepAll tol grids) (hmem : tl ∈ grids)
+    (hT : fullTlist tol grids = some T)
+    (hlen : cs.length + 1 = tl.length ∨ cs.length = tl.length) :
+    fillW w tol tl cs T = .ok (T.map (codeAt tl (padCoeff tl cs))) := by
+  rw [fill_w_eq_fill w tol grids T tl cs htol hgr hsep hmem hT hlen]
+  exact fill_eq_code tol grids T tl cs htol hgr hsep hmem hT hlen
+
+/-- `fill_eq_step` for both shapes -/
+theorem fill_eq_step_w (w : Bool) (tol : Rat) (grids : List (List Rat)) (T tl cs : List Rat) (htol : 0 ≤ tol)
+    (hgr : ∀ g ∈ grids, GoodGrid g) (hsep : SepAll tol grids) (hmem : tl ∈ grids)
+    (hT : fullTlist tol grids = some T) (hz : LastZero tl cs) :
+    fillW w tol tl cs T = .ok (T.map (stepAt tl cs)) := by
+  have hlen : cs.length + 1 = tl.length ∨ cs.length = tl.length := by
+    rcases hz with h | ⟨h, _⟩
+    · exact Or.inl h
+    · exact Or.inr h
+  rw [fill_w_eq_fill w tol grids T tl cs htol hgr hsep hmem hT hlen]
+  exact fill_eq_step tol grids T tl cs htol hgr hsep hmem hT hz
+
+/-- `fill_eq_step_repaired` for both shapes: the code of /repo with fixes/C14-2 and with or without fixes/C14-7 -/
+theorem fill_eq_step_repaired_w (w : Bool) (tol : Rat) (grids : List (List Rat)) (T tl cs : List Rat) (htol : 0 ≤ tol)
+    (hgr : ∀ g ∈ grids, GoodGrid g) (hsep : SepAll tol grids) (hmem : tl ∈ grids)
+    (hT : fullTlist tol grids = some T)
+    (hlen : cs.length + 1 = tl.length ∨ cs.length = tl.length) :
+    fillVW true w tol tl cs T = .ok (T.map (stepAt tl cs)) := by
+  unfold fillVW
+  rw [fill_w_eq_fill w tol grids T tl _ htol hgr hsep hmem hT (normCoeff_len true tl cs hlen (hgr tl hmem).2.2)]
+  exact fill_eq_step_repaired tol grids T tl cs htol hgr hsep hmem hT hlen
+
+example : (fillVW true true (1/10) [0, 1] [2, 3/4] [0, 1, 3/2, 2]).toOption = some [2, 0, 0, 0] ∧
+    [0, 1, 3/2, 2].map (stepAt [0, 1] [2, 3/4]) = [2, 0, 0, 0] := by decide +kernel
+
+/-- `fullCoeffs_eq` for both shapes -/
+theorem fullCoeffs_eq_w (w : Bool) (tol : Rat) (chans : List (List Rat × List Rat)) (htol : 0 ≤ tol) (hne : chans ≠ [])
+    (hgr : ∀ c ∈ chans, GoodGrid c.1) (hz : ∀ c ∈ chans, LastZero c.1 c.2)
+    (hsep : SepAll tol (chans.map (·.1))) :
+    fullCoeffsW w tol (chans.map fun c => Chan.arr c.1 c.2) =
+      .ok (sortU (chans.map (·.1)).flatten,
+           chans.map fun c => (sortU (chans.map (·.1)).flatten).map (stepAt c.1 c.2)) := by
+  rw [fullCoeffsW_eq w tol chans htol hne hgr (fun c hc => by
+    rcases hz c hc with h | ⟨h, _⟩
+    · exact Or.inl h
+    · exact Or.inr h) hsep]
+  exact fullCoeffs_eq tol chans htol hne hgr hz hsep
+
+/-- `fullCoeffs_eq_repaired` for both shapes -/
+theorem fullCoeffs_eq_repaired_w (w : Bool) (tol : Rat) (chans : List (List Rat × List Rat)) (htol : 0 ≤ tol)
+    (hne : chans ≠ []) (hgr : ∀ c ∈ chans, GoodGrid c.1)
+    (hlen : ∀ c ∈ chans, c.2.length + 1 = c.1.length ∨ c.2.length = c.1.length)
+    (hsep : SepAll tol (chans.map (·.1))) :
+    fullCoeffsVW true w tol (chans.map fun c => Chan.arr c.1 c.2) =
+      .ok (sortU (chans.map (·.1)).flatten,
+           chans.map fun c => (sortU (chans.map (·.1)).flatten).map (stepAt c.1 c.2)) := by
+  rw [fullCoeffsVW_eq true w tol chans htol hne hgr hlen hsep]
+  exact fullCoeffs_eq_repaired tol chans htol hne hgr hlen hsep
+
+example : (fullCoeffsVW true true (1/10000000000) [.arr [0, 1] [2, 3/4], .arr [0, 3/2, 2] [1/2, 1/4]]).toOption
+    = some ([0, 1, 3/2, 2], [[2, 0, 0, 0], [1/2, 1/2, 1/4, 0]]) := by decide +kernel
+
+/-- `run_analytically_is_time_ordered` for both shapes of the advance step: the rows `get_full_coeffs` returns are the
+same, hence so are the slices, their product and everything said about it. -/
+theorem run_analytically_is_time_ordered_w {ι : Type*} [Fintype ι] [DecidableEq ι] (w : Bool)
+    (tol : Rat) (chans : List (List Rat × List Rat)) (htol : 0 ≤ tol) (hne : chans ≠ [])
+    (hgr : ∀ c ∈ chans, GoodGrid c.1)
+    (hlen : ∀ c ∈ chans, c.2.length + 1 = c.1.length ∨ c.2.length = c.1.length)
+    (hsep : SepAll tol (chans.map (·.1)))
+    (drift : Matrix ι ι ℂ) (ctrls : List (Matrix ι ι ℂ)) :
+    ∃ (T : List Rat) (rows : List (List Rat)) (Tend : Rat) (U : ℝ → Matrix ι ι ℂ),
+      fullCoeffsVW true w tol (chans.map fun c => Chan.arr c.1 c.2) = .ok (T, rows) ∧ T.getLast? = some Tend ∧
+      U ((Tend : ℚ) : ℝ) = ordProdL (runAnalytically drift ctrls (slices T rows)) ∧
+      U 0 = 1 ∧ Continuous U ∧
+      (∀ (t : ℝ) (i j : ι), HasDerivWithinAt (fun s => U s i j)
+        (((-Complex.I) • (statedHam drift ctrls chans Tend t * U t)) i j) (Set.Ici t) t) ∧
+      (∀ t : ℝ, (∀ q ∈ T, ((q : ℚ) : ℝ) ≠ t) → ∀ i j : ι, HasDerivAt (fun s => U s i j)
+        (((-Complex.I) • (statedHam drift ctrls chans Tend t * U t)) i j) t) ∧
+      (∀ V : ℝ → Matrix ι ι ℂ, ContinuousOn V (Set.Icc 0 ((Tend : ℚ) : ℝ)) → V 0 = 1 →
+        (∀ t ∈ Set.Ico (0 : ℝ) ((Tend : ℚ) : ℝ), ∀ i j : ι, HasDerivWithinAt (fun s => V s i j)
+          (((-Complex.I) • (statedHam drift ctrls chans Tend t * V t)) i j) (Set.Ici t) t) →
+        ∀ t ∈ Set.Icc (0 : ℝ) ((Tend : ℚ) : ℝ), V t = U t) ∧
+      (∀ V : ℝ → Matrix ι ι ℂ, ContinuousOn V (Set.Icc 0 ((Tend : ℚ) : ℝ)) → V 0 = 1 →
+        (∀ t ∈ Set.Ioo (0 : ℝ) ((Tend : ℚ) : ℝ), (∀ q ∈ T, ((q : ℚ) : ℝ) ≠ t) → ∀ i j : ι,
+          HasDerivAt (fun s => V s i j) (((-Complex.I) • (statedHam drift ctrls chans Tend t * V t)) i j) t) →
+        ∀ t ∈ Set.Icc (0 : ℝ) ((Tend : ℚ) : ℝ), V t = U t) := by
+  obtain ⟨T, rows, Tend, U, h1, rest⟩ :=
+    run_analytically_is_time_ordered tol chans htol hne hgr hlen hsep drift ctrls
+  exact ⟨T, rows, Tend, U, by rw [fullCoeffsVW_eq true w tol chans htol hne hgr hlen hsep]; exact h1, rest⟩
+
+/-- **What the repair is for.**  Channel a has a slot of `8·10⁻¹¹ < tol = 10⁻¹⁰` (the pulse of a rotation by `10⁻⁹`): the
+merged grid has no point for its end.  The loop as found then reads every later coefficient of the channel one slot off
+(`7/10` on the merged slot `[1/2, 1)`, where the channel's value is `-2/5`, and `-2/5` at the end point, where it is 0); the repaired loop returns the step function. -/
+theorem catchup_counterexample :
+    (fullCoeffsVW true false (1/10000000000)
+        [.arr [0, 1/2, 1/2 + 8/100000000000, 1] [1, 7/10, -2/5], .arr [0, 1] [3/10]]).toOption
+      = some ([0, 1/2, 1], [[1, 7/10, -2/5], [3/10, 3/10, 0]])
+    ∧ (fullCoeffsVW true true (1/10000000000)
+        [.arr [0, 1/2, 1/2 + 8/100000000000, 1] [1, 7/10, -2/5], .arr [0, 1] [3/10]]).toOption
+      = some ([0, 1/2, 1], [[1, -2/5, 0], [3/10, 3/10, 0]])
+    ∧ stepAt [0, 1/2, 1/2 + 8/100000000000, 1] [1, 7/10, -2/5] (3/4) = -2/5 := by
+  decide +kernel
+
+/-- **The repaired loop without any hypothesis on distances** (no `SepAll`, no lower bound on the slot lengths, no
+assumption that the grid `T` contains the channel's points): for a strictly increasing channel grid with at least one slot,
+every coefficient array of length `n-1` or `n` (repaired padding) and ANY strictly increasing `T`, the resampling succeeds
+and its value at every point `t` of `T` is the channel's step function at SOME time within `tol` of `t` — a slot shorter
+than the resolution can only lose its own slice, it can no longer shift the later coefficients. -/
+theorem fill_catchup_near (tol : Rat) (T tl cs : List Rat) (htol : 0 ≤ tol)
+    (hp : tl.Pairwise (· < ·)) (h2 : 2 ≤ tl.length)
+    (hlen : cs.length + 1 = tl.length ∨ cs.length = tl.length) (hT : T.Pairwise (· < ·)) :
+    ∃ rs, fillVW true true tol tl cs T = .ok rs ∧ rs.length = T.length ∧
+      ∀ k (h1 : k < T.length) (h2 : k < rs.length),
+        ∃ s, T[k] - tol ≤ s ∧ s ≤ T[k] + tol ∧ rs[k] = stepAt tl cs s := by
+  obtain ⟨rs, hrs, hall⟩ := fillW_true_near tol tl (normCoeff true tl cs) T htol hp h2 (lastZero_normCoeff tl cs hlen h2) hT
+  obtain ⟨hl, hk⟩ := All2.get hall
+  refine ⟨rs, hrs, hl.symm, fun k h1 h2 => ?_⟩
+  obtain ⟨s, a, b, c⟩ := hk k h1 h2
+  exact ⟨s, a, b, by rw [c, stepAt_normCoeff tl cs s hlen]⟩
+
+-- non-vacuity: the channel of `catchup_counterexample` on the merged grid [0, 1/2, 1]
+example : (fillVW true true (1/10000000000) [0, 1/2, 1/2 + 8/100000000000, 1] [1, 7/10, -2/5] [0, 1/2, 1]).toOption
+    = some [1, -2/5, 0] ∧ ([0, 1/2, 1/2 + 8/100000000000, 1] : List Rat).Pairwise (· < ·) := by
+  constructor
+  · decide +kernel
+  · decide +kernel
 
 end QipVerif.C14
